@@ -19,6 +19,7 @@ def run(ctx):
     dynatt.rule_attack_assumption_templates(ctx)
     dynalloc.rule_id_indexed_vectors(ctx)
     dyn.rule_cached_witness_consistent(ctx)
+    dyn.rule_cache_answer_polarity(ctx)
     dyn.rule_encoder_assumptions_reach_sat_calls(ctx)
     dyn.rule_dynamic_query_polarity(ctx)
     dyn.rule_witnessless_cache_hits(ctx)
